@@ -1,7 +1,10 @@
 """C05 — alignment offsets minimise the squared spread of crossing values."""
+import os
+
 import numpy as np
 
 from . import classification as C
+from . import cli
 from . import common
 from . import pipeline as P
 from .common import Fraction, q2s
@@ -83,10 +86,13 @@ def run_find_offsets(ctx, n):
         inp = {"function": "fit_offsets.find_offsets", "head_mapping": {str(k): v for k, v in m.items()}}
         payload = [[k, [[s, q2s(Fraction(t))] for s, t in v]] for k, v in m.items()]
         try:
+            arg = {k: list(v) for k, v in m.items()}
             with common.session_logging(ctx.rng, 0.15):
-                ids, offs = fo.find_offsets({k: list(v) for k, v in m.items()})
+                ids, offs = fo.find_offsets(arg)
             got = {int(s): float(o) for s, o in zip(ids, offs)}
             err = None
+            if len(ids) != len(offs):
+                err = "series ids and offsets of different lengths (%d, %d)" % (len(ids), len(offs))
         except Exception as e:  # noqa
             got, err = None, "%s: %s" % (type(e).__name__, e)
         mod = ctx.driver.call("solve.q", {"mapping": payload})
@@ -174,15 +180,101 @@ def run_tables(ctx, n):
                 ctx.corr_break(ob, {"input": dict(inp, table=kind), "impl": offsets, "model": mod})
 
 
+def worst_residual(t):
+    """(worst |residual sum| of an interval, scale of the crossing values, keys) of the stored recession alignment, exactly"""
+    mapping, offsets, keys = tables_mapping("recession", t)
+    off = {s_: Fraction(o) for s_, o in offsets}
+    sums = {s_: Fraction(0) for s_ in off}
+    for _k, v in mapping:
+        shifted = [(s_, off[s_] + Fraction(x)) for s_, x in v]
+        mean = sum(y for _s, y in shifted) / len(shifted)
+        for s_, y in shifted:
+            sums[s_] += y - mean
+    scale = max([abs(Fraction(x[1])) for _k, v in mapping for x in v] + [Fraction(1)])
+    return max([abs(r) for r in sums.values()] + [Fraction(0)]), scale, len(keys)
+
+
+CAPPED = r"""
+import resource, sys
+sys.path.insert(0, %r)
+import spowtd.user_interface as ui, numpy, scipy.optimize, scipy.interpolate
+# (let the BLAS library allocate its own work buffers before the cap is set)
+numpy.linalg.solve(numpy.eye(64) * 2.0, numpy.ones(64)); numpy.dot(numpy.ones((300, 300)), numpy.ones((300, 300)))
+vm = [int(l.split()[1]) for l in open('/proc/self/status') if l.startswith('VmSize')][0] * 1024
+cap = vm + %d
+resource.setrlimit(resource.RLIMIT_AS, (cap, cap))
+try:
+    ui.main(['recession', %r])
+except MemoryError as e:
+    print('MemoryError'); sys.exit(7)
+"""
+
+
+def capped_case(ctx, ob, oracle="c05Holds"):
+    """a dataset of several hundred intervals, aligned once normally and once with the address space capped at three
+    quarters of what the dense design matrix needs"""
+    import shutil
+    n_spells = ctx.rng.randint(600, 800)
+    rows, s, j, level = P.many_spells_rows(ctx.rng, n_spells)
+    w0 = P.run_workflow(ctx, rows, s, j, 0.25, steps=("load", "classify", "grid"), keep_db=True)   # (fine grid: many equations per interval)
+    db2 = ctx.scratch("capped.sqlite3")
+    shutil.copyfile(w0["db"], db2)
+    r = cli.run(["recession", w0["db"]])
+    t = cli.dump(w0["db"])
+    P.cleanup(w0)
+    inp = {"record": {"kind": "many short dry spells", "n_spells": n_spells, "seed": ctx.seed, "samples": len(level)}, "zeta_step": 0.25}
+    try:
+        if r[0] == "ok" and t.get("recession_interval"):
+            mapping, _offsets, keys = tables_mapping("recession", t)
+            a_bytes = sum(len(v) for _k, v in mapping if len(v) > 1) * max(1, len(keys) - 1) * 8
+            capped_run(ctx, db2, inp, ob, int(0.5 * a_bytes), oracle)
+    finally:
+        os.path.exists(db2) and os.remove(db2)
+
+
+def capped_run(ctx, db, inp, ob, margin=300 * 2**20, oracle="c05Holds"):
+    """the same command on a machine with too little memory for the dense design matrix (address space capped a few
+    hundred MB above what the interpreter already uses): it may refuse (MemoryError), it may not store offsets that
+    do not minimise"""
+    import subprocess
+    import sys
+    code = CAPPED % (common.REPO, margin, db)
+    p = subprocess.run([sys.executable, "-c", code], capture_output=True, text=True, timeout=900,
+                       env=dict(os.environ, PYTHONPATH=common.REPO, MPLBACKEND="Agg", OPENBLAS_NUM_THREADS="1", OMP_NUM_THREADS="1"))
+    ctx.case(("many-capped", inp["record"]["n_spells"]), True)
+    ctx.count("capped_memory_run_" + ("refused" if p.returncode else "completed"))
+    if p.returncode != 0:
+        return
+    t = cli.dump(db)
+    if not t.get("recession_interval"):
+        return
+    worst, scale, _n = worst_residual(t)
+    ok = worst <= Fraction(1, 10**6) * scale
+    ctx.obligation(ob, ok)
+    if not ok:
+        ctx.violation("impl-violation", oracle, {"input": dict(inp, address_space_cap="interpreter + %d bytes" % margin), "impl": "completed", "oracle": {
+            "name": oracle, "result": False,
+            "witness": {"why": "with too little memory for the design matrix the command completes and stores offsets whose residuals "
+                               "do not sum to zero", "worst_residual_sum": float(worst), "scale_of_crossing_values": float(scale)}}})
+
+
 def run_many_intervals(ctx, n_spells):
     """thousands of intervals in one curve (a least-squares problem of thousands of unknowns and a design matrix of
     hundreds of megabytes): the exact solver of the model is not run at this size; the stored offsets are certified
     by the vanishing of every interval's residual sum (theorem stationary_is_minimiser)"""
     ob = "offsets stored by `spowtd recession` on thousands of intervals have vanishing residual sums (hence minimise)"
     rows, s, j, level = P.many_spells_rows(ctx.rng, n_spells)
-    w = P.run_workflow(ctx, rows, s, j, 1.0, steps=("load", "classify", "grid", "recession"))
-    t, st = w["tables"], w["status"]
+    w0 = P.run_workflow(ctx, rows, s, j, 1.0, steps=("load", "classify", "grid"), keep_db=True)
+    import shutil
+    db2 = ctx.scratch("many-capped.sqlite3")
+    shutil.copyfile(w0["db"], db2)
+    r_rec = cli.run(["recession", w0["db"]])
+    t = cli.dump(w0["db"])
+    st = dict(w0["status"], recession=r_rec)
+    P.cleanup(w0)
     inp = {"record": {"kind": "many short dry spells", "n_spells": n_spells, "seed": ctx.seed, "samples": len(level)}, "zeta_step": 1.0}
+    os.path.exists(db2) and os.remove(db2)
+    capped_case(ctx, ob)
     ctx.case(("many", n_spells, len(level)), True)
     if any(st.get(k, ("x",))[0] != "ok" for k in ("load", "classify", "grid", "recession")):
         ctx.violation("impl-violation", "c05Holds", {"input": inp, "impl": {k: list(v) for k, v in st.items()}, "oracle": {
